@@ -58,6 +58,7 @@ pub struct Gen<'a> {
     pub stanza: usize,
     pub counter: usize,
     pub in_scan: usize,
+    pub edges: Vec<(String, String)>,   // edge statements emitted so far in this stanza (variable names)
 }
 
 impl<'a> Gen<'a> {
@@ -180,7 +181,15 @@ impl<'a> Gen<'a> {
             }
             8 | 9 => {
                 let ns = self.vars_of(K::Node, false); if ns.is_empty() { return; }
+                // an attribute on an edge created by an EARLIER statement (other edges of the same source may have been added since)
+                let visible: Vec<(String, String)> = self.edges.iter().filter(|e| ns.iter().any(|v| v.name == e.0) && ns.iter().any(|v| v.name == e.1)).cloned().collect();
+                if !visible.is_empty() && self.rng.chance(35) {
+                    let (a, b) = self.rng.pick(&visible).clone(); let an = if self.rng.chance(20) { "edup".to_string() } else { self.fresh("e") }; let e = self.expr(K::Int, 0, false);
+                    out.push_str(&format!("{}attr ({} -> {}) {} = {}\n", pad, a, b, an, e));
+                    return;
+                }
                 let a = self.rng.pick(&ns).name.clone(); let b = self.rng.pick(&ns).name.clone();
+                self.edges.push((a.clone(), b.clone()));
                 out.push_str(&format!("{}edge {} -> {}\n", pad, a, b));
                 if self.rng.chance(50) { let an = self.fresh("e"); let e = self.expr(K::Int, 0, false); out.push_str(&format!("{}attr ({} -> {}) {} = {}\n", pad, a, b, an, e)); }
             }
@@ -253,12 +262,17 @@ pub fn gen_program(rng: &mut Rng, opts: &GenOpts) -> Program {
         globals.push((name, K::Node));
     }
     let mut shorthand_names = vec![];
+    let mut sh_free = false;
     if opts.shorthands && rng.chance(35) {
         let name = "sh1".to_string();
-        let body = match rng.below(3) {
+        // body 3 uses a FREE variable: shorthand bodies see no locals of the place of use, so the run must
+        // fail with an undefined variable even where a local `shv` is in scope (the loader does not look
+        // into shorthand bodies: known finding K4a of C06)
+        let body = match rng.below(4) {
             0 => "sh1_a = x".to_string(),
             1 => "sh1_a = x, sh1_b = (plus x 1)".to_string(),
-            _ => "sh1_a = [ (plus y x) for y in [1, 2] ]".to_string(),
+            2 => "sh1_a = [ (plus y x) for y in [1, 2] ]".to_string(),
+            _ => { sh_free = true; "sh1_a = x, sh1_f = shv".to_string() }
         };
         preamble.push(format!("attribute {} = x => {}", name, body));
         shorthand_names.push(name);
@@ -271,8 +285,9 @@ pub fn gen_program(rng: &mut Rng, opts: &GenOpts) -> Program {
         let mut body = String::new();
         let new_scoped;
         {
-            let mut g = Gen { rng, opts: opts.clone(), vars: vec![], caps: caps.clone(), scoped_defs: &mut scoped, new_scoped: vec![], globals: globals.clone(), shorthand_names: shorthand_names.clone(), stanza: si, counter: 0, in_scan: 0 };
+            let mut g = Gen { rng, opts: opts.clone(), vars: vec![], caps: caps.clone(), scoped_defs: &mut scoped, new_scoped: vec![], globals: globals.clone(), shorthand_names: shorthand_names.clone(), stanza: si, counter: 0, in_scan: 0, edges: vec![] };
             let cnt = 2 + g.rng.below(6);
+            if sh_free && g.rng.chance(60) { body.push_str("  let shv = 5\n"); }
             g.block(0, cnt, &mut body, 1);
             for c in &caps { body.push_str(&format!("  print @{}\n", c.0)); }
             new_scoped = g.new_scoped;
